@@ -39,6 +39,9 @@ type Op struct {
 	// Deadline, if non-nil, returns the instant at which the operation becomes
 	// enabled by the passage of time alone (zero = never).
 	Deadline func() time.Time
+	// Idle marks an operation that is enabled only while no non-idle operation
+	// of any task is enabled ("wait until the system has nothing left to do").
+	Idle bool
 	// lock bookkeeping
 	lock *lockState
 }
@@ -310,10 +313,31 @@ func (s *Sched) Snapshot() []Parked {
 	}
 	s.mu.Unlock()
 	sort.Slice(ps, func(i, j int) bool { return ps[i].Task.Name < ps[j].Task.Name })
+	busy := false
 	for i := range ps {
+		if ps[i].Op.Idle {
+			continue
+		}
 		ps[i].Enabled = s.enabled(ps[i].Task, ps[i].Op)
+		if ps[i].Enabled {
+			busy = true
+		}
+	}
+	for i := range ps {
+		if ps[i].Op.Idle {
+			ps[i].Enabled = !busy && s.enabled(ps[i].Task, ps[i].Op)
+		}
 	}
 	return ps
+}
+
+// ParkIdle parks the calling task until no other (non-idle) operation is enabled.
+func ParkIdle(site string) {
+	s, g := active()
+	if s == nil {
+		return
+	}
+	s.park(g, &Op{Kind: "idle", Site: site, Idle: true})
 }
 
 func (s *Sched) enabled(t *Task, op *Op) bool {
